@@ -576,6 +576,13 @@ func c02HelperResult(c *Check, id string, r *RouterRoles, pubErrCalls []ssa.Call
 					if fld, base := FieldOf(x.Addr); fld != nil && base != nil && fld.Exported() && NamedOf(base.Type()) != nil && NamedOf(base.Type()).Obj().Name() == "Message" && NamedOf(base.Type()).Obj().Pkg().Path() == msgPkg {
 						bad = "store to Message." + fld.Name()
 					}
+					// … nor replaces an element of a message slice (an output swapped for another object loses what the
+					// handler and the router put on it)
+					if ia, isIA := x.Addr.(*ssa.IndexAddr); isIA {
+						if sl, isSl := ia.X.Type().Underlying().(*types.Slice); isSl && sl.Elem().String() == tMessagePtr {
+							bad = "element of a message slice replaced"
+						}
+					}
 				case *ssa.MapUpdate:
 					if x.Map.Type().String() == msgPkg+".Metadata" {
 						bad = "metadata map update"
